@@ -168,6 +168,17 @@ func c17Exec(op string) string {
 		if string(x1) != k1 || string(x2) != k2 {
 			notes = append(notes, "the bytes returned by a MapSeq encoder changed during later encoder calls")
 		}
+		// the same MapSeq after a JSON round trip (sequence numbers are float64 then)
+		if j, jerr := mxj.Map(ms).Json(); jerr == nil {
+			if mj, derr := mxj.NewMapJson(j); derr == nil {
+				b3 := deepCopy(map[string]interface{}(mj))
+				mxj.MapSeq(mj).Xml()
+				mxj.MapSeq(mj).XmlIndent("", " ")
+				if !deepEq(b3, map[string]interface{}(mj)) {
+					notes = append(notes, "a MapSeq encoder modified its receiver (a MapSeq that went through JSON)")
+				}
+			}
+		}
 		if !deepEq(b2, map[string]interface{}(ms)) {
 			notes = append(notes, "a MapSeq encoder modified its receiver")
 		}
